@@ -380,7 +380,7 @@ pub fn random_trace(seed: u64) -> Trace {
         if with_faults && rng.chance(0.06) {
             s.push(Step::Env(EnvEvent::Clock { ms: rng.range(1, 3000) as u64 }));
             if broken {
-                s.push(Step::Env(EnvEvent::Repair { path: nav_file.clone() }));
+                s.push(Step::Env(EnvEvent::Repair { path: nav_file.clone(), keep_mtime: false }));
             } else {
                 let kinds = [FaultKind::Empty, FaultKind::Garbage, FaultKind::InvalidXpath(rng.below(1000)), FaultKind::TruncEntries(rng.below(1000)), FaultKind::WrongTopType, FaultKind::UnknownReplacementKey(rng.below(1000))];
                 s.push(Step::Env(EnvEvent::Fault { path: nav_file.clone(), kind: rng.pick(&kinds).clone() }));
